@@ -356,7 +356,9 @@ def tasks(tier):
                 T.append(LoopReal(style, alg, openssh))
     for bits in ((512, 1023, 1024, 1025, 2048, 3072) if q else (512, 768, 1023, 1024, 1025, 1536, 2047, 2048, 2049, 3071, 3072, 3073, 4096, 6144)):
         T.append(Measure(bits, True))
-        if bits % 8:
+        # without the leading zero byte: also for sizes that are a multiple of 8, where the first byte then has its top bit set (an unsigned modulus as some
+        # servers send it - it must not be read as a negative number)
+        if bits % 8 or bits in (1024, 2048, 4096):
             T.append(Measure(bits, False))
     for bits in ((1024, 2048) if q else (512, 1024, 2048, 3072, 4096)):
         for sec in ('dead', 'disconnect', 'other-type', 'short-group', 'group-without-reply', 'debug-then-disconnect', 'debug-then-group'):
